@@ -52,14 +52,58 @@ def correspond(ctx):
     c2 = vlib.correspond(ctx, 'c04', 'C04', ['n=%d' % (n // 3), 'bind=' + BOUND_TOKEN], canon=canon, timeout=1500, nontrivial=_nontrivial)
     c2['name'] = 'scripts-bound-token'
     _post(c2)
-    return [c1, c2]
+    return [c1, c2, _concurrency(ctx)]
+
+
+def _concurrency(ctx):
+    """Evidence, not proof: N goroutines on their own AccountDB over one shared database must answer as when alone."""
+    res = dict(name='concurrency-evidence (not proof)', ok=False, ops=0, mismatches=0, errors=[], samples=[], distinct_nontrivial=0)
+    race = ctx.thorough()
+    binp, log = vlib.go_build(ctx, vlib.HARNESS, './cmd/c04', 'c04race' if race else 'c04conc', race=race)
+    if not binp:
+        res['errors'].append('build failed: ' + log[-600:])
+        return res
+    cwd = ctx.scratch('c04conc')
+    args = ['mode=conc', 'rounds=%d' % (30 if race else 6)]
+    rc, so, se = vlib.run([binp] + args, cwd=cwd, env=dict(VERIF_SEED=str(ctx.seed), GORACE='exitcode=0'), timeout=1200)
+    import shutil
+    shutil.rmtree(cwd, ignore_errors=True)
+    # race reports: the unsynchronised package global rpgContractAddress (rewritten by loadContractCache on every
+    # balance lookup while no ERC20 binding exists) is a by-product documented in design/C04.md; any other report fails
+    reports = [r for r in se.split('WARNING: DATA RACE')[1:]]
+    other = [r for r in reports if 'loadContractCache' not in r]
+    race_reports = dict(total=len(reports), rpgContractAddress=len(reports) - len(other), other=len(other))
+    if other:
+        res['errors'].append('unexpected data race: ' + other[0][:600])
+    for line in so.split('\n'):
+        if line.startswith('STATS '):
+            st = json.loads(line[6:])
+            res['stats'] = dict(st, race_detector=race, race_reports=race_reports)
+            res['ops'] = st.get('answers_compared', 0)
+            res['mismatches'] = len(st.get('mismatches') or [])
+            res['first'] = [dict(index=0, op='concurrent replay', impl=m, model='answer when run alone') for m in (st.get('mismatches') or [])]
+    if rc != 0:
+        res['errors'].append('exit %d: %s' % (rc, (se or so)[-800:]))
+    res['ok'] = rc == 0 and res['ops'] > 0 and res['mismatches'] == 0 and not other
+    return res
 
 
 def _post(c):
     st = c.get('stats') or {}
-    if isinstance(st, dict) and st.get('root_clashes'):
+    if not isinstance(st, dict):
+        return
+    if st.get('root_clashes'):
         c['ok'] = False
         c.setdefault('errors', []).append('root/content clash: ' + str(st['root_clashes'][:1]))
+    if st.get('generated_bad_ops'):
+        c['ok'] = False
+        c.setdefault('errors', []).append('%d well-formed generated lines were refused with bad-op (broken tie)' % st['generated_bad_ops'])
+    if st.get('alias_violations'):
+        c['ok'] = False
+        c.setdefault('errors', []).append('returned slice aliases reused memory: ' + str(st['alias_violations'][:1]))
+    if st.get('reference_clashes'):
+        c['ok'] = False
+        c.setdefault('errors', []).append('independent reference disagrees: ' + str(st['reference_clashes'][:1]))
 
 
 def search(ctx, hints):
